@@ -8,7 +8,7 @@ CONSTANTS Tx = {"t1", "t2"}
           Eager = TRUE
           Acts = {"admit", "rsp", "getpool", "verifyblock", "blocksaved"}
           ListLen = 1
-          Depth = 4
+          Depth = 3
           EmitOn = TRUE
 VIEW View
 CONSTRAINT Bound
